@@ -256,8 +256,44 @@ func needsSource(ifi config.Interface) bool {
 
 // ---------------------------------------------------------------- Gallina rendering
 
+// hZ / hAddr render numbers as hexadecimal literals (Coq converts them several times faster than decimal ones,
+// and the case files of C17 / C04 consist mostly of 128-bit addresses and nanosecond durations).
+func hZ(v int64) string {
+	if v > -65536 && v < 65536 {
+		return verifh.Z(v)
+	}
+	if v < 0 {
+		return fmt.Sprintf("(-0x%x)%%Z", -v)
+	}
+	return fmt.Sprintf("(0x%x)%%Z", v)
+}
+
+func hAddr(a netip.Addr) string {
+	if !a.IsValid() {
+		return "0%N"
+	}
+	if a.Is4() {
+		b := a.As4()
+		return fmt.Sprintf("0x%x%%N", uint32(b[0])<<24|uint32(b[1])<<16|uint32(b[2])<<8|uint32(b[3]))
+	}
+	return fmt.Sprintf("0x%x%%N", verifh.AddrBig(a))
+}
+
 func coqStr(s string) string {
 	return "\"" + strings.ReplaceAll(s, "\"", "\"\"") + "\"%string"
+}
+
+// coqName renders a metric or label name: the documented names are constants of Corr/C17.v (s_<name>), which Coq
+// elaborates much faster than string literals; anything else is a literal.
+func coqName(s string) string {
+	if _, ok := constNames[s]; ok {
+		return "s_" + s
+	}
+	switch s {
+	case "interface", "details", "domains", "prefix", "route", "servers":
+		return "s_" + s
+	}
+	return coqStr(s)
 }
 
 func coqPref(p ndp.Preference) string {
@@ -274,7 +310,7 @@ func coqPref(p ndp.Preference) string {
 func coqAddrs(as []netip.Addr) string {
 	l := make([]string, len(as))
 	for i, a := range as {
-		l[i] = verifh.AddrN(a)
+		l[i] = hAddr(a)
 	}
 	return verifh.List(l)
 }
@@ -283,17 +319,17 @@ func coqOpt(o ndp.Option, in *verifh.Intern) string {
 	switch o := o.(type) {
 	case *ndp.PrefixInformation:
 		return verifh.App("OPrefix", verifh.N(uint64(o.PrefixLength)), verifh.B(o.OnLink), verifh.B(o.AutonomousAddressConfiguration),
-			verifh.Z(int64(o.ValidLifetime)), verifh.Z(int64(o.PreferredLifetime)), verifh.AddrN(o.Prefix))
+			hZ(int64(o.ValidLifetime)), hZ(int64(o.PreferredLifetime)), hAddr(o.Prefix))
 	case *ndp.RouteInformation:
-		return verifh.App("ORoute", verifh.N(uint64(o.PrefixLength)), coqPref(o.Preference), verifh.Z(int64(o.RouteLifetime)), verifh.AddrN(o.Prefix))
+		return verifh.App("ORoute", verifh.N(uint64(o.PrefixLength)), coqPref(o.Preference), hZ(int64(o.RouteLifetime)), hAddr(o.Prefix))
 	case *ndp.RecursiveDNSServer:
-		return verifh.App("ORDNSS", verifh.Z(int64(o.Lifetime)), coqAddrs(o.Servers))
+		return verifh.App("ORDNSS", hZ(int64(o.Lifetime)), coqAddrs(o.Servers))
 	case *ndp.DNSSearchList:
 		l := make([]string, len(o.DomainNames))
 		for i, d := range o.DomainNames {
 			l[i] = in.N("dom:" + d)
 		}
-		return verifh.App("ODNSSL", verifh.Z(int64(o.Lifetime)), verifh.List(l))
+		return verifh.App("ODNSSL", hZ(int64(o.Lifetime)), verifh.List(l))
 	case *ndp.MTU:
 		return verifh.App("OMTU", verifh.N(uint64(o.MTU)))
 	case *ndp.LinkLayerAddress:
@@ -305,7 +341,7 @@ func coqOpt(o ndp.Option, in *verifh.Intern) string {
 	case *ndp.CaptivePortal:
 		return verifh.App("OCaptive", in.N("uri:"+o.URI))
 	case *ndp.PREF64:
-		return verifh.App("OPref64", verifh.B(o.Prefix.Addr().Is4()), verifh.AddrN(o.Prefix.Addr()), verifh.N(uint64(o.Prefix.Bits())), verifh.Z(int64(o.Lifetime)))
+		return verifh.App("OPref64", verifh.B(o.Prefix.Addr().Is4()), hAddr(o.Prefix.Addr()), verifh.N(uint64(o.Prefix.Bits())), hZ(int64(o.Lifetime)))
 	default:
 		return verifh.App("OOther", verifh.N(uint64(o.Code())))
 	}
@@ -317,8 +353,8 @@ func coqRA(ra *ndp.RouterAdvertisement, in *verifh.Intern) string {
 		opts[i] = coqOpt(o, in)
 	}
 	return verifh.App("mkRA", verifh.N(uint64(ra.CurrentHopLimit)), verifh.B(ra.ManagedConfiguration), verifh.B(ra.OtherConfiguration),
-		coqPref(ra.RouterSelectionPreference), verifh.Z(int64(ra.RouterLifetime)), verifh.Z(int64(ra.ReachableTime)),
-		verifh.Z(int64(ra.RetransmitTimer)), verifh.List(opts))
+		coqPref(ra.RouterSelectionPreference), hZ(int64(ra.RouterLifetime)), hZ(int64(ra.ReachableTime)),
+		hZ(int64(ra.RetransmitTimer)), verifh.List(opts))
 }
 
 // nano converts a float64 sample value to nano-units. time.Duration.Seconds() is not injective; the candidates are
@@ -343,7 +379,7 @@ func labelTerm(name, v string, in *verifh.Intern) string {
 		return verifh.App("LId", in.N("if:"+v))
 	case "prefix", "route":
 		if p, err := netip.ParsePrefix(v); err == nil {
-			return verifh.App("LCidr", verifh.AddrN(p.Addr()), verifh.N(uint64(p.Bits())))
+			return verifh.App("LCidr", hAddr(p.Addr()), verifh.N(uint64(p.Bits())))
 		}
 	case "servers":
 		var as []netip.Addr
@@ -382,9 +418,9 @@ type mSample struct {
 func (s mSample) term(in *verifh.Intern) string {
 	ls := make([]string, len(s.Labels))
 	for i, l := range s.Labels {
-		ls[i] = verifh.Pair(coqStr(l[0]), labelTerm(l[0], l[1], in))
+		ls[i] = verifh.App("L", coqName(l[0]), labelTerm(l[0], l[1], in))
 	}
-	return verifh.Pair(verifh.Pair(coqStr(s.Name), verifh.List(ls)), verifh.Z(nano(s.Value)))
+	return verifh.App("S", coqName(s.Name), verifh.List(ls), hZ(nano(s.Value)))
 }
 
 func sampleTerms(ss []mSample, in *verifh.Intern) string {
@@ -551,7 +587,7 @@ func cidrParts(s string) (addr, bits string, v4 bool) {
 	if err != nil {
 		return "0%N", "999%N", false
 	}
-	return verifh.AddrN(p.Addr()), verifh.N(uint64(p.Bits())), p.Addr().Is4()
+	return hAddr(p.Addr()), verifh.N(uint64(p.Bits())), p.Addr().Is4()
 }
 
 // bodyTerm renders a decoded body as `list jiface`.
@@ -567,11 +603,11 @@ func bodyTerm(b *jBody, in *verifh.Intern) string {
 				for _, n := range d.DomainNames {
 					names = append(names, in.N("dom:"+n))
 				}
-				dnssl = append(dnssl, verifh.App("mkJDnssl", verifh.Z(d.LifetimeSeconds), verifh.List(names)))
+				dnssl = append(dnssl, verifh.App("mkJDnssl", hZ(d.LifetimeSeconds), verifh.List(names)))
 			}
 			for _, p := range o.Prefixes {
 				a, bits, _ := cidrParts(p.Prefix)
-				prefixes = append(prefixes, verifh.App("mkJPrefix", a, bits, verifh.B(p.OnLink), verifh.B(p.Autonomous), verifh.Z(p.Valid), verifh.Z(p.Preferred)))
+				prefixes = append(prefixes, verifh.App("mkJPrefix", a, bits, verifh.B(p.OnLink), verifh.B(p.Autonomous), hZ(p.Valid), hZ(p.Preferred)))
 			}
 			for _, r := range o.RDNSS {
 				var as []netip.Addr
@@ -579,15 +615,15 @@ func bodyTerm(b *jBody, in *verifh.Intern) string {
 					a, _ := netip.ParseAddr(s)
 					as = append(as, a)
 				}
-				rdnss = append(rdnss, verifh.App("mkJRdnss", verifh.Z(r.LifetimeSeconds), coqAddrs(as)))
+				rdnss = append(rdnss, verifh.App("mkJRdnss", hZ(r.LifetimeSeconds), coqAddrs(as)))
 			}
 			for _, r := range o.Routes {
 				a, bits, _ := cidrParts(r.Prefix)
-				routes = append(routes, verifh.App("mkJRoute", a, bits, prefStr(r.Preference), verifh.Z(r.Lifetime)))
+				routes = append(routes, verifh.App("mkJRoute", a, bits, prefStr(r.Preference), hZ(r.Lifetime)))
 			}
 			for _, p := range o.PREF64 {
 				a, bits, v4 := cidrParts(p.Prefix)
-				pref64 = append(pref64, verifh.App("mkJPref64", verifh.B(v4), a, bits, verifh.Z(p.LifetimeSeconds)))
+				pref64 = append(pref64, verifh.App("mkJPref64", verifh.B(v4), a, bits, hZ(p.LifetimeSeconds)))
 			}
 			slla := verifh.None()
 			if o.SLLA != "" {
@@ -605,11 +641,11 @@ func bodyTerm(b *jBody, in *verifh.Intern) string {
 			if o.Captive != "" {
 				captive = verifh.Some(in.N("uri:" + o.Captive))
 			}
-			opts := verifh.App("mkJOpts", verifh.List(dnssl), verifh.Z(o.MTU), verifh.List(prefixes), verifh.List(rdnss),
+			opts := verifh.App("mkJOpts", verifh.List(dnssl), hZ(o.MTU), verifh.List(prefixes), verifh.List(rdnss),
 				verifh.List(routes), slla, captive, verifh.List(pref64))
-			adv = verifh.Some(verifh.App("mkJRA", verifh.Z(a.CurrentHopLimit), verifh.B(a.ManagedConfiguration), verifh.B(a.OtherConfiguration),
-				prefStr(a.RouterSelectionPreference), verifh.Z(a.RouterLifetimeSeconds), verifh.Z(a.ReachableTimeMilliseconds),
-				verifh.Z(a.RetransmitTimerMilliseconds), opts))
+			adv = verifh.Some(verifh.App("mkJRA", hZ(a.CurrentHopLimit), verifh.B(a.ManagedConfiguration), verifh.B(a.OtherConfiguration),
+				prefStr(a.RouterSelectionPreference), hZ(a.RouterLifetimeSeconds), hZ(a.ReachableTimeMilliseconds),
+				hZ(a.RetransmitTimerMilliseconds), opts))
 		}
 		ifs = append(ifs, verifh.App("mkJIface", in.N("if:"+i.Interface), verifh.B(i.Advertise), adv))
 	}
